@@ -198,6 +198,8 @@ func buildBatchWorld(root string, days int) *batchWorld {
 		"crop_p1.txt": a.RotationTxt() + rows(b.RotationTxt()) + rows(f5.RotationTxt()),
 		"fert_p1.txt": fmt.Sprintf("Field_ID  N   Frt date\n%-9s 40 KAS  %s\n%-9s 40 KAS  %s\nend\n", "F1", d(1), "F2", d(1)),
 		"til_p1.txt":  fmt.Sprintf("Field_ID  Ti Typ date\n          cm\n%-9s 20 1   %s\nend\n", "F5", d(2)),
+		// groundwater series for soil 001 (line As): ordered by date, rows of soil 002 in between, one day listed twice with the same level
+		"gw_p1.csv": fmt.Sprintf("SID,Date,Level\n001,%s,12\n002,%s,9\n001,%s,6\n002,%s,7\n001,%s,6\n001,%s,3\n002,%s,5\n001,%s,3\n", d(-5), d(-5), d(10), d(10), d(10), d(25), d(25), d(25)),
 	}
 	a.Write(root)
 	c.Write(root)
@@ -233,6 +235,8 @@ func buildBatchWorld(root string, days int) *batchWorld {
 		"A2": "project=p1 plotNr=1 fcode=W parameter=par poligonID=X",
 		// the same plot and soil id with groundwater taken from the polygon file (min/max 4-8 dm) instead of the soil file
 		"Ag": "project=p1 plotNr=1 fcode=W parameter=par poligonID=Q GroundWaterFrom=0",
+		// the same plot with groundwater from the time-series file
+		"As": "project=p1 plotNr=1 fcode=W parameter=par poligonID=S GroundWaterFrom=2",
 		// the same plots with configuration and crop overrides on the line (must not reach other runs of the session)
 		"Ao": "project=p1 plotNr=1 fcode=W parameter=par poligonID=O NDeposition=60 KcFactorBareSoil=0.6 LeachingDepth=9 CropFile=PARAM.XWA c_MAXAMAX=30 c_TSUM_1=60 c_WUMAXPF=7",
 		"Bo": "project=p1 plotNr=2 fcode=W parameter=par poligonID=P Fertilization=50 ETpot=2 CropFile=PARAM.XWB c_MINTMP=1 c_KC_2=1.2",
